@@ -5,7 +5,9 @@ PROP = {
     "modules": [],
     "streams": [{"name": "determ"}],
     "rule": "determ: generated (template, logical environment) pairs, 65 % of them map-heavy (string-keyed maps of 2..12 "
-            "entries consumed by for, tablerow, first, last, join, map, sort, size, {{ m }}, concat, uniq, json ...); for "
+            "entries consumed by for, tablerow, first, last, join, map, sort, size, {{ m }}, concat, uniq, json ...; a fixed family of "
+            "maps with closely spaced integer keys, shared-prefix string keys and three levels of nested maps under every iterating "
+            "construct and under json / inspect); for "
             "each pair the Go maps (bindings map included) are built in 4 insertion orders; rendered 5x on one parsed "
             "template with one environment object, with the 3 other constructions, on 2 fresh parses, on 2 fresh "
             "engines, and through Render, RenderString, FRender, ParseAndRender, ParseAndRenderString, ParseAndFRender; "
@@ -20,7 +22,9 @@ TEXT = {
               'renders, fresh parses and fresh engines are the same application (reparse_same), and the six API entry points '
               'reduce to it (entrypoints_agree). The one source of nondeterminism in the real code, Go map iteration order, is '
               'removed by sorting: sort_perm_invariant / map_order_independent prove that sorting any two permutations of the '
-              'same distinct-key entries gives the same list, for every list. Tie: every `determ` case line is answered by the '
+              'same distinct-key entries gives the same list, for every list; the JSON printers (json, inspect) sort the resolved '
+              'key texts themselves: jsonObject_perm / json_map_order_independent / json_keyedMap_order_independent prove that '
+              'json.Marshal of a map gives the same text for every permutation of its entries. Tie: every `determ` case line is answered by the '
               'model and compared with the real engine; on the real code each case is rendered 5x on one template, with maps '
               'rebuilt in 4 insertion orders, on fresh parses and engines, through all six entry points and through cmd/liquid, '
               'and all results must be identical.'),
